@@ -20,6 +20,13 @@ for pid in sorted(PROPS):
         "level_note": p["note"],
         "technique": p["technique"],
     })
+import json as _j
+all_ids = [_j.loads(l)["id"] for l in open(os.path.join(ROOT, "properties.jsonl"))]
+claimed = {c["property_id"] for c in checks}
+na = list(NOT_APPLICABLE)
+for pid in all_ids:
+    if pid not in claimed and pid not in {n["property_id"] for n in na}:
+        na.append({"property_id": pid, "reason": "not claimed yet: the check for this property is not built/validated at this commit (planned, DESIGN.md section 13); the technique itself applies"})
 m = {
     "version": 1,
     "setup_cmd": "bin/check build",
@@ -34,7 +41,7 @@ m = {
                  "serves_properties": sorted(k for k in PROPS if PROPS[k].get("claimed", True)),
                  "kind_free_text": "Coq 8.16 theorems about a Gallina model of apd; model tied to /repo by a go/types constant translator and a differential correspondence check (Go harness vs extracted OCaml model); extracted oracles applied to the implementation's outputs"}],
     "checks": checks,
-    "not_applicable": NOT_APPLICABLE,
+    "not_applicable": na,
     "notes": "See DESIGN.md. known_findings.json lists recorded and fixed findings; seeded/ holds confirmed breaking changes used for calibration.",
 }
 json.dump(m, open(os.path.join(ROOT, "MANIFEST.json"), "w"), indent=1)
